@@ -1559,12 +1559,24 @@ def prepare(ctx, fork_call):
     names = fork_call(lambda c: battery_digests(c), dict(ctx), 300)
     # every entry is evaluated ALONE in its own fork of the pristine image,
     # so that the expectation does not depend on the other entries either
-    exp = []
-    for k, (nm, _) in enumerate(names):
-        one = fork_call(lambda c, k=k: fpc(battery_digests(c, only=k)),
-                        dict(ctx), 120)
-        exp.append([nm, one])
-    ctx['battery'] = exp
+    from sim.procs import run_batch
+    global _PREP_CTX
+    _PREP_CTX = dict(ctx)
+    digs = run_batch(_battery_entry, list(range(len(names))), chunk=8)
+    bad = [d for d in digs if isinstance(d, dict)]
+    if bad:
+        raise RuntimeError('canary battery could not be evaluated: '
+                           + str(bad[0])[:500])
+    ctx['battery'] = [[nm, d] for (nm, _), d in zip(names, digs)]
+
+
+_PREP_CTX = {}
+
+
+def _battery_entry(k):
+    """Worker-side: evaluate battery entry k alone in a pristine fork."""
+    from sim.procs import fork_call
+    return fork_call(lambda c: fpc(battery_digests(c, only=k)), _PREP_CTX, 120)
 
 
 def worker_post(plan, res, ctx, fork_call, tier_cfg):
